@@ -380,6 +380,18 @@ def make_pcapng(payloads, link="ip"):
     return f.getvalue()
 
 
+def impl_trim(payloads, link):
+    """bytes the pcapng front-end extracts from a capture whose packets carry `payloads` (real dpkt container)"""
+    import importlib
+    import io
+    pm = importlib.import_module("tpmstream.io.pcapng.marshal")
+    try:
+        out = bytes(pm.bytes_from_pcap_file(io.BytesIO(make_pcapng(payloads, link))))
+        return [f"F ok {out.hex() or '-'}"]
+    except Exception as e:  # noqa
+        return [f"F crash {type(e).__name__}"]
+
+
 def impl_events_via(front, data, tname="Stream", cc=None, mode="S"):
     """events (canonical, without pull counts) of decoding container bytes `data` through a front-end"""
     import importlib
